@@ -176,16 +176,7 @@ theorem parseQ_qText (w : Weight) (h : WeightWF w) : parseQ (qText w) = some (so
     rw [parseQ_frac _ d1 _ hfrac]
     rfl
 
-theorem stripQPrefix_qText (w : Weight) (h : w.whole ≤ 1) : stripQPrefix (qText w) = qText w := by
-  obtain ⟨d1, _⟩ := wholeByte_facts w h
-  have hf := digit_lower_facts (wholeByte w)
-  simp [d1] at hf
-  rw [qText_eq]
-  unfold stripQPrefix
-  split
-  · rename_i r heq
-    simp at heq
-    exact absurd heq.1 hf.1.1.1.2
-  · rfl
+theorem stripQPrefix_lower (r : Bytes) : stripQPrefix (113 :: 61 :: r) = r := by simp [stripQPrefix]
+theorem stripQPrefix_upper (r : Bytes) : stripQPrefix (81 :: 61 :: r) = r := by simp [stripQPrefix]
 
 end Huginn.Http1
